@@ -88,5 +88,75 @@ def evaluate(name, items, shard=150):
     return res, errors
 
 
+PL_HEADER = """From Coq Require Import List String Ascii NArith ZArith Bool PrimFloat.
+From PDT Require Import Model.Dtype Model.Value Model.Ops Model.Expr Model.RefSem Model.PlCompile Model.PlCompileCheck.
+From PDTGen Require Import Catalogue.
+Import ListNotations.
+Open Scope string_scope.
+"""
+PL_FIELD = {1: "select", 2: "partition_by", 3: "the columns recorded in name_in_df", 4: "a frame name in name_in_df",
+            5: "the frame's schema"}
+
+
+def kname(s: str) -> str:
+    """a frame name as (written by the user?, base name): `<name>:<hex>` is a suffixed hidden column"""
+    m = re.fullmatch(r"(.*):([0-9a-f]{16,})", s, re.S)
+    if m:
+        return f"(false, {ser.str_to_coq(m.group(1))})"
+    return f"(true, {ser.str_to_coq(s)})"
+
+
+def real_polars(tbl, um: ser.UidMap):
+    """(select, partition_by, name_in_df, schema) of the real Polars compile_ast as Gallina terms"""
+    from pydiverse.transform._internal.backend import polars as P
+    from pydiverse.transform._internal.tree import verbs as V
+    nd = tbl._ast
+    if any(isinstance(x, (V.Join, V.Union)) for x in nd.iter_subtree_preorder()):
+        return None
+    if not issubclass(tbl._cache.backend, P.PolarsImpl):
+        return None
+    lf, name_in_df, select, partition_by = P.compile_ast(nd)
+
+    def ul(us):
+        return "[" + "; ".join(um.coq(u) for u in us) + "]"
+    names = "[" + "; ".join(f"({um.coq(u)}, {kname(n)})" for u, n in name_in_df.items()) + "]"
+    keys = "[" + "; ".join(kname(n) for n in lf.collect_schema().names()) + "]"
+    return ul(select), ul(partition_by), names, keys
+
+
+def evaluate_polars(name, items, shard=120):
+    """items: list of (key, db_coq, ast_coq, (select, part, names, keys))"""
+    CASES.mkdir(parents=True, exist_ok=True)
+    files = []
+    for s0 in range(0, len(items), shard):
+        txt = [PL_HEADER]
+        ents = []
+        for j, (key, dbc, a, (sel, part, names, keys)) in enumerate(items[s0:s0 + shard]):
+            i = s0 + j
+            txt.append(f"Definition d{i} : db := {dbc}.")
+            txt.append(f"Definition a{i} : ast := {a}.")
+            ents.append(f"({i}, pl3_check d{i} a{i} {sel} {part} {names} {keys})")
+        txt.append("Eval vm_compute in [" + ";\n ".join(ents) + "]%nat.\n")
+        f = CASES / f"{name}_pl3_{s0 // shard}.v"
+        f.write_text("\n".join(txt))
+        files.append(f)
+
+    def go(f):
+        return subprocess.run(["bash", "-c", f"ulimit -s unlimited; timeout 900 coqc {' '.join(common.COQ_ARGS)} {f}"],
+                              capture_output=True, text=True, cwd=common.COQ)
+    res, errors = {}, []
+    with ThreadPoolExecutor(common.NPROC) as ex:
+        for f, p in zip(files, ex.map(go, files)):
+            if p.returncode != 0:
+                errors.append(f"{f.name}: {(p.stderr or p.stdout)[-1200:]}")
+                continue
+            flat = re.sub(r"%nat|\s", "", p.stdout)
+            for m in re.finditer(r"\((\d+),\((\d+),\[([\d;]*)\],(\d+)\)\)|\((\d+),(\d+),\[([\d;]*)\],(\d+)\)", flat):
+                g = m.groups()
+                i, dom, diff, fl = (g[0], g[1], g[2], g[3]) if g[0] is not None else (g[4], g[5], g[6], g[7])
+                res[items[int(i)][0]] = (int(dom), [int(x) for x in diff.split(";") if x], int(fl))
+    return res, errors
+
+
 FIELD = {1: "select", 2: "partition_by", 3: "group_by", 4: "where", 5: "having", 6: "order_by", 7: "limit", 8: "offset",
          9: "is_summarized", 10: "label of a selected column", 11: "scope (Cache.cols)"}
